@@ -136,7 +136,7 @@ fn seq_append<const CAP: usize, const N1: usize, const N2: usize>() {
 // symbolic values, the builder is observably the Vec<bool> built by the same pushes (length, every
 // bit, byte slice of exactly ceil(len/8) bytes); finish returns that sequence as a BooleanBuffer
 // inside its byte buffer and leaves an empty builder.
-// @unit name=bbb_append_0_7_0 props=C19,C01 kind=bounded bound=ops=4_shape_(cap,n1,n2)=(0,7,0)_values_symbolic fns=BooleanBufferBuilder::new,BooleanBufferBuilder::append,BooleanBufferBuilder::append_n,BooleanBufferBuilder::finish,BooleanBufferBuilder::len,BooleanBufferBuilder::get_bit tier=thorough timeout=240 note=not_confirmed_under_load
+// @unit name=bbb_append_0_7_0 props=C19,C01 kind=bounded bound=ops=4_shape_(cap,n1,n2)=(0,7,0)_values_symbolic fns=BooleanBufferBuilder::new,BooleanBufferBuilder::append,BooleanBufferBuilder::append_n,BooleanBufferBuilder::finish,BooleanBufferBuilder::len,BooleanBufferBuilder::get_bit timeout=240
 inst!(bbb_append_0_7_0, 12, seq_append::<0, 7, 0>());
 // @unit name=bbb_append_0_3_62 props=C19,C01 kind=bounded bound=ops=4_shape_(cap,n1,n2)=(0,3,62)_values_symbolic fns=BooleanBufferBuilder::new,BooleanBufferBuilder::append,BooleanBufferBuilder::append_n,BooleanBufferBuilder::finish,BooleanBufferBuilder::len,BooleanBufferBuilder::get_bit tier=thorough timeout=240 note=not_confirmed_under_load
 inst!(bbb_append_0_3_62, 65, seq_append::<0, 3, 62>());
@@ -167,7 +167,7 @@ fn seq_truncate<const N1: usize, const T: usize, const K: usize>() {
 // advance(k); append(v2) the builder equals the model Vec<bool> under truncate(t) (no effect when
 // t > len), k pushes of false, one push: in particular the values dropped by truncate are never
 // visible again (advance yields false even where true bits were truncated away).
-// @unit name=bbb_truncate_13_5_6 props=C19,C01 kind=bounded bound=ops=4_shape_(n1,truncate_to,advance)=(13,5,6)_values_symbolic fns=BooleanBufferBuilder::truncate,BooleanBufferBuilder::advance,BooleanBufferBuilder::append tier=thorough timeout=240 note=not_confirmed_under_load
+// @unit name=bbb_truncate_13_5_6 props=C19,C01 kind=bounded bound=ops=4_shape_(n1,truncate_to,advance)=(13,5,6)_values_symbolic fns=BooleanBufferBuilder::truncate,BooleanBufferBuilder::advance,BooleanBufferBuilder::append timeout=240
 inst!(bbb_truncate_13_5_6, 16, seq_truncate::<13, 5, 6>());
 // @unit name=bbb_truncate_70_63_3 props=C19,C01 kind=bounded bound=ops=4_shape_(n1,truncate_to,advance)=(70,63,3)_values_symbolic fns=BooleanBufferBuilder::truncate,BooleanBufferBuilder::advance,BooleanBufferBuilder::append tier=thorough timeout=240 note=not_confirmed_under_load
 inst!(bbb_truncate_70_63_3, 73, seq_truncate::<70, 63, 3>());
@@ -195,7 +195,7 @@ fn seq_resize<const N1: usize, const R1: usize, const R2: usize>() {
 // Contract (C19/C01) BooleanBufferBuilder::{append_slice, resize}: after append_slice(s) (symbolic
 // values); resize(r1); resize(r2) the builder equals the model under Vec::resize(_, false): shrinking
 // drops values, growing appends false values (never stale bits).
-// @unit name=bbb_resize_13_5_11 props=C19,C01 kind=bounded bound=ops=3_shape_(n1,resize1,resize2)=(13,5,11)_values_symbolic fns=BooleanBufferBuilder::append_slice,BooleanBufferBuilder::resize tier=thorough timeout=240 note=not_confirmed_under_load
+// @unit name=bbb_resize_13_5_11 props=C19,C01 kind=bounded bound=ops=3_shape_(n1,resize1,resize2)=(13,5,11)_values_symbolic fns=BooleanBufferBuilder::append_slice,BooleanBufferBuilder::resize timeout=240
 inst!(bbb_resize_13_5_11, 16, seq_resize::<13, 5, 11>());
 // @unit name=bbb_resize_10_70_64 props=C19,C01 kind=bounded bound=ops=3_shape_(n1,resize1,resize2)=(10,70,64)_values_symbolic fns=BooleanBufferBuilder::append_slice,BooleanBufferBuilder::resize tier=thorough timeout=240 note=not_confirmed_under_load
 inst!(bbb_resize_10_70_64, 73, seq_resize::<10, 70, 64>());
@@ -227,7 +227,7 @@ fn seq_set_bit<const N1: usize, const K: usize>() {
 // Contract (C19/C01) BooleanBufferBuilder::{append_slice, set_bit, get_bit}: after append_n(n1, v);
 // append_slice(s); set_bit(j, w) for a symbolic j < len, bit j reads w, every other bit and the
 // length are unchanged (frame), and a following append lands at position len.
-// @unit name=bbb_set_bit_5_6 props=C19,C01 kind=bounded bound=ops=4_shape_(n1,slice_len)=(5,6)_values_and_index_symbolic fns=BooleanBufferBuilder::set_bit,BooleanBufferBuilder::get_bit,BooleanBufferBuilder::append_slice tier=thorough timeout=240 note=not_confirmed_under_load
+// @unit name=bbb_set_bit_5_6 props=C19,C01 kind=bounded bound=ops=4_shape_(n1,slice_len)=(5,6)_values_and_index_symbolic fns=BooleanBufferBuilder::set_bit,BooleanBufferBuilder::get_bit,BooleanBufferBuilder::append_slice timeout=240
 inst!(bbb_set_bit_5_6, 12, seq_set_bit::<5, 6>());
 // @unit name=bbb_set_bit_60_10 props=C19,C01 kind=bounded bound=ops=4_shape_(n1,slice_len)=(60,10)_values_and_index_symbolic fns=BooleanBufferBuilder::set_bit,BooleanBufferBuilder::get_bit,BooleanBufferBuilder::append_slice tier=thorough timeout=240 note=not_confirmed_under_load
 inst!(bbb_set_bit_60_10, 63, seq_set_bit::<60, 10>());
@@ -254,11 +254,11 @@ fn seq_packed<const W: usize, const START: usize, const LEN: usize, const NB: us
 // following append lands right after them.
 // @unit name=bbb_packed_0_0_64 props=C19,C01 kind=bounded bound=ops=3_grid_(write_offset,read_offset,len,bytes)=(0,0,64,9) fns=BooleanBufferBuilder::append_packed_range tier=thorough timeout=300 note=not_confirmed_under_load
 inst!(bbb_packed_0_0_64, 67, seq_packed::<0, 0, 64, 9>());
-// @unit name=bbb_packed_0_3_12 props=C19,C01 kind=bounded bound=ops=3_grid_(write_offset,read_offset,len,bytes)=(0,3,12,3) fns=BooleanBufferBuilder::append_packed_range tier=thorough timeout=300 note=not_confirmed_under_load
+// @unit name=bbb_packed_0_3_12 props=C19,C01 kind=bounded bound=ops=3_grid_(write_offset,read_offset,len,bytes)=(0,3,12,3) fns=BooleanBufferBuilder::append_packed_range timeout=300
 inst!(bbb_packed_0_3_12, 15, seq_packed::<0, 3, 12, 3>());
-// @unit name=bbb_packed_3_0_12 props=C19,C01 kind=bounded bound=ops=3_grid_(write_offset,read_offset,len,bytes)=(3,0,12,3) fns=BooleanBufferBuilder::append_packed_range tier=thorough timeout=300 note=not_confirmed_under_load
+// @unit name=bbb_packed_3_0_12 props=C19,C01 kind=bounded bound=ops=3_grid_(write_offset,read_offset,len,bytes)=(3,0,12,3) fns=BooleanBufferBuilder::append_packed_range timeout=300
 inst!(bbb_packed_3_0_12, 15, seq_packed::<3, 0, 12, 3>());
-// @unit name=bbb_packed_5_7_70 props=C19,C01 kind=bounded bound=ops=3_grid_(write_offset,read_offset,len,bytes)=(5,7,70,11) fns=BooleanBufferBuilder::append_packed_range tier=thorough timeout=300 note=not_confirmed_under_load
+// @unit name=bbb_packed_5_7_70 props=C19,C01 kind=bounded bound=ops=3_grid_(write_offset,read_offset,len,bytes)=(5,7,70,11) fns=BooleanBufferBuilder::append_packed_range timeout=300
 inst!(bbb_packed_5_7_70, 73, seq_packed::<5, 7, 70, 11>());
 // @unit name=bbb_packed_8_8_130 props=C19,C01 kind=bounded bound=ops=3_grid_(write_offset,read_offset,len,bytes)=(8,8,130,19) fns=BooleanBufferBuilder::append_packed_range tier=thorough timeout=300 note=not_confirmed_under_load
 inst!(bbb_packed_8_8_130, 133, seq_packed::<8, 8, 130, 19>());
@@ -295,7 +295,7 @@ fn seq_append_buffer<const W: usize, const OFF: usize, const LEN: usize, const N
 }
 // Contract (C19/C01) BooleanBufferBuilder::append_buffer(&BooleanBuffer): appends exactly the values of
 // the (offset, len) view, earlier values and the source unchanged.
-// @unit name=bbb_append_buffer_3_5_12 props=C19,C01 kind=bounded bound=ops=3_grid_(write_offset,src_offset,len)=(3,5,12) fns=BooleanBufferBuilder::append_buffer tier=thorough timeout=300 note=not_confirmed_under_load
+// @unit name=bbb_append_buffer_3_5_12 props=C19,C01 kind=bounded bound=ops=3_grid_(write_offset,src_offset,len)=(3,5,12) fns=BooleanBufferBuilder::append_buffer timeout=300
 inst!(bbb_append_buffer_3_5_12, 15, seq_append_buffer::<3, 5, 12, 4>());
 // @unit name=bbb_append_buffer_0_64_65 props=C19,C01 kind=bounded bound=ops=3_grid_(write_offset,src_offset,len)=(0,64,65) fns=BooleanBufferBuilder::append_buffer tier=thorough timeout=300 note=not_confirmed_under_load
 inst!(bbb_append_buffer_0_64_65, 68, seq_append_buffer::<0, 64, 65, 18>());
@@ -329,7 +329,7 @@ fn seq_finish_reuse<const N1: usize, const N2: usize>() {
 // Contract (C19/C01) BooleanBufferBuilder::{finish, finish_cloned}: finish resets the builder (a second
 // sequence built afterwards shows none of the first one's bits); finish_cloned returns the current
 // sequence and leaves the builder unchanged.
-// @unit name=bbb_finish_reuse_13_9 props=C19,C01 kind=bounded bound=ops=4_shape_(n1,n2)=(13,9)_values_symbolic fns=BooleanBufferBuilder::finish,BooleanBufferBuilder::finish_cloned tier=thorough timeout=300 note=not_confirmed_under_load
+// @unit name=bbb_finish_reuse_13_9 props=C19,C01 kind=bounded bound=ops=4_shape_(n1,n2)=(13,9)_values_symbolic fns=BooleanBufferBuilder::finish,BooleanBufferBuilder::finish_cloned timeout=300
 inst!(bbb_finish_reuse_13_9, 16, seq_finish_reuse::<13, 9>());
 // @unit name=bbb_finish_reuse_64_65 props=C19,C01 kind=bounded bound=ops=4_shape_(n1,n2)=(64,65)_values_symbolic fns=BooleanBufferBuilder::finish,BooleanBufferBuilder::finish_cloned tier=thorough timeout=300 note=not_confirmed_under_load
 inst!(bbb_finish_reuse_64_65, 68, seq_finish_reuse::<64, 65>());
@@ -351,7 +351,7 @@ fn seq_reserve<const N1: usize, const R: usize>() {
 }
 // Contract (C19/C01) BooleanBufferBuilder::reserve(r): capacity() >= len + r afterwards, observable
 // sequence unchanged, later appends behave as before.
-// @unit name=bbb_reserve_13_600 props=C19,C01 kind=bounded bound=ops=3_shape_(n1,reserve)=(13,600) fns=BooleanBufferBuilder::reserve,BooleanBufferBuilder::capacity tier=thorough timeout=240 note=not_confirmed_under_load
+// @unit name=bbb_reserve_13_600 props=C19,C01 kind=bounded bound=ops=3_shape_(n1,reserve)=(13,600) fns=BooleanBufferBuilder::reserve,BooleanBufferBuilder::capacity timeout=240
 inst!(bbb_reserve_13_600, 16, seq_reserve::<13, 600>());
 // @unit name=bbb_reserve_0_1 props=C19,C01 kind=bounded bound=ops=3_shape_(n1,reserve)=(0,1) fns=BooleanBufferBuilder::reserve,BooleanBufferBuilder::capacity tier=thorough timeout=240 note=not_confirmed_under_load
 inst!(bbb_reserve_0_1, 12, seq_reserve::<0, 1>());
@@ -378,11 +378,11 @@ fn seq_append_word<const W: usize, const COUNT: usize>() {
 // the call appends exactly the count low bits of the symbolic word, LSB first (bits >= count of the
 // word are not read as data), leaves the first w values unchanged, and a following append lands
 // right after them.
-// @unit name=bbb_append_word_0_64 props=C19,C01 kind=bounded bound=ops=3_grid_(bit_offset,count)=(0,64)_word_symbolic fns=BooleanBufferBuilder::append_word tier=thorough timeout=240 note=not_confirmed_under_load
+// @unit name=bbb_append_word_0_64 props=C19,C01 kind=bounded bound=ops=3_grid_(bit_offset,count)=(0,64)_word_symbolic fns=BooleanBufferBuilder::append_word timeout=240
 inst!(bbb_append_word_0_64, 67, seq_append_word::<0, 64>());
-// @unit name=bbb_append_word_1_63 props=C19,C01 kind=bounded bound=ops=3_grid_(bit_offset,count)=(1,63)_word_symbolic fns=BooleanBufferBuilder::append_word tier=thorough timeout=240 note=not_confirmed_under_load
+// @unit name=bbb_append_word_1_63 props=C19,C01 kind=bounded bound=ops=3_grid_(bit_offset,count)=(1,63)_word_symbolic fns=BooleanBufferBuilder::append_word timeout=240
 inst!(bbb_append_word_1_63, 66, seq_append_word::<1, 63>());
-// @unit name=bbb_append_word_7_64 props=C19,C01 kind=bounded bound=ops=3_grid_(bit_offset,count)=(7,64)_word_symbolic fns=BooleanBufferBuilder::append_word tier=thorough timeout=240 note=not_confirmed_under_load
+// @unit name=bbb_append_word_7_64 props=C19,C01 kind=bounded bound=ops=3_grid_(bit_offset,count)=(7,64)_word_symbolic fns=BooleanBufferBuilder::append_word timeout=240
 inst!(bbb_append_word_7_64, 67, seq_append_word::<7, 64>());
 // @unit name=bbb_append_word_0_0 props=C19,C01 kind=bounded bound=ops=3_grid_(bit_offset,count)=(0,0)_word_symbolic fns=BooleanBufferBuilder::append_word tier=thorough timeout=240 note=not_confirmed_under_load
 inst!(bbb_append_word_0_0, 12, seq_append_word::<0, 0>());
@@ -408,9 +408,9 @@ inst!(bbb_append_word_61_64, 67, seq_append_word::<61, 64>());
 inst!(bbb_append_word_64_33, 67, seq_append_word::<64, 33>());
 // @unit name=bbb_append_word_3_61 props=C19,C01 kind=bounded bound=ops=3_grid_(bit_offset,count)=(3,61)_word_symbolic fns=BooleanBufferBuilder::append_word tier=thorough timeout=240 note=not_confirmed_under_load
 inst!(bbb_append_word_3_61, 64, seq_append_word::<3, 61>());
-// @unit name=bbb_append_word_5_58 props=C19,C01 kind=bounded bound=ops=3_grid_(bit_offset,count)=(5,58)_word_symbolic fns=BooleanBufferBuilder::append_word tier=thorough timeout=240 note=not_confirmed_under_load
+// @unit name=bbb_append_word_5_58 props=C19,C01 kind=bounded bound=ops=3_grid_(bit_offset,count)=(5,58)_word_symbolic fns=BooleanBufferBuilder::append_word tier=thorough timeout=240
 inst!(bbb_append_word_5_58, 61, seq_append_word::<5, 58>());
-// @unit name=bbb_append_word_7_60 props=C19,C01 kind=bounded bound=ops=3_grid_(bit_offset,count)=(7,60)_word_symbolic fns=BooleanBufferBuilder::append_word tier=thorough timeout=240 note=not_confirmed_under_load
+// @unit name=bbb_append_word_7_60 props=C19,C01 kind=bounded bound=ops=3_grid_(bit_offset,count)=(7,60)_word_symbolic fns=BooleanBufferBuilder::append_word tier=thorough timeout=240
 inst!(bbb_append_word_7_60, 63, seq_append_word::<7, 60>());
 // @unit name=bbb_append_word_2_62 props=C19,C01 kind=bounded bound=ops=3_grid_(bit_offset,count)=(2,62)_word_symbolic fns=BooleanBufferBuilder::append_word tier=thorough timeout=240 note=not_confirmed_under_load
 inst!(bbb_append_word_2_62, 65, seq_append_word::<2, 62>());
@@ -491,7 +491,7 @@ fn seq_new_from_buffer<const NB: usize, const LEN: usize, const K: usize>() {
 // positions >= len are not read as data: advance(k) afterwards yields k false values); a bit flipped
 // through as_slice_mut is the bit read by get_bit / as_slice; build returns the sequence as a
 // BooleanBuffer inside its byte buffer.
-// @unit name=bbb_new_from_buffer_3_13_6 props=C19,C01 kind=bounded bound=grid_(bytes,len,advance)=(3,13,6) fns=BooleanBufferBuilder::new_from_buffer,BooleanBufferBuilder::as_slice_mut,BooleanBufferBuilder::as_slice,BooleanBufferBuilder::build tier=thorough timeout=300 note=not_confirmed_under_load
+// @unit name=bbb_new_from_buffer_3_13_6 props=C19,C01 kind=bounded bound=grid_(bytes,len,advance)=(3,13,6) fns=BooleanBufferBuilder::new_from_buffer,BooleanBufferBuilder::as_slice_mut,BooleanBufferBuilder::as_slice,BooleanBufferBuilder::build timeout=300
 inst!(bbb_new_from_buffer_3_13_6, 16, seq_new_from_buffer::<3, 13, 6>());
 // @unit name=bbb_new_from_buffer_9_64_3 props=C19,C01 kind=bounded bound=grid_(bytes,len,advance)=(9,64,3) fns=BooleanBufferBuilder::new_from_buffer,BooleanBufferBuilder::as_slice_mut,BooleanBufferBuilder::as_slice,BooleanBufferBuilder::build tier=thorough timeout=300 note=not_confirmed_under_load
 inst!(bbb_new_from_buffer_9_64_3, 67, seq_new_from_buffer::<9, 64, 3>());
@@ -547,7 +547,7 @@ fn seq_convert<const N1: usize, const K: usize, const VARIANT: u8>() {
 // NullBuffer (VARIANT 0/1/2/3): the result holds exactly the model sequence (Buffer: exactly
 // ceil(len/8) bytes, bit i = value i; NullBuffer: validity = sequence and null_count = number of
 // false values exactly).
-// @unit name=bbb_convert_5_6_3 props=C19,C01 kind=bounded bound=shape_(n1,slice_len,variant)=(5,6,3)_values_symbolic fns=BooleanBufferBuilder::build,BooleanBufferBuilder::into tier=thorough timeout=300 note=not_confirmed_under_load
+// @unit name=bbb_convert_5_6_3 props=C19,C01 kind=bounded bound=shape_(n1,slice_len,variant)=(5,6,3)_values_symbolic fns=BooleanBufferBuilder::build,BooleanBufferBuilder::into timeout=300
 inst!(bbb_convert_5_6_3, 14, seq_convert::<5, 6, 3>());
 // @unit name=bbb_convert_5_6_0 props=C19,C01 kind=bounded bound=shape_(n1,slice_len,variant)=(5,6,0)_values_symbolic fns=BooleanBufferBuilder::build,BooleanBufferBuilder::into tier=thorough timeout=300 note=not_confirmed_under_load
 inst!(bbb_convert_5_6_0, 14, seq_convert::<5, 6, 0>());
